@@ -18,7 +18,7 @@ PROPERTY = "C18"
 LEVEL = "proof"
 ASSUMPTIONS = [
     "component shapes swept as listed (crossbar up to 3x3, products/collector with 1-3 targets, 2-3 bit payloads); all inputs universally quantified; Collector additionally over all histories",
-    "map / filter functions are fixed: i_fun(x) = x + 1, o_fun(y) = ~y, condition(arg) = arg[0], product combiner = sum of the target results",
+    "map / filter functions are fixed: i_fun(x) = x + 1, o_fun(y) = ~y, condition(arg) = arg[0] (one bit) and condition(arg) = arg (two bits, non-zero = true), product combiner = sum of the target results",
 ]
 LAY = [("d", 3)]
 OLAY = [("r", 2)]
@@ -31,7 +31,8 @@ def configs(tier):
             if tier == "quick" and c1 * c2 > 6:
                 continue
             out.append({"kind": "crossbar", "c1": c1, "c2": c2})
-    out += [{"kind": "method_map"}, {"kind": "filter", "use_condition": False}, {"kind": "filter", "use_condition": True}]
+    out += [{"kind": "method_map"}, {"kind": "filter", "use_condition": False}, {"kind": "filter", "use_condition": True},
+            {"kind": "filter", "use_condition": False, "cond": "wide"}, {"kind": "filter", "use_condition": True, "cond": "wide"}]
     for n in (1, 2, 3):
         out += [{"kind": "product", "n": n, "combiner": False}, {"kind": "product", "n": n, "combiner": True}, {"kind": "try_product", "n": n}, {"kind": "collector", "n": n}]
     out.append({"kind": "nonexclusive_wrapper"})
@@ -98,11 +99,12 @@ def _run(cfg, ctx, dm):
     elif k == "filter":
         uc = cfg["use_condition"]
         tgt = Adapter(i=LAY, o=OLAY)
-        dut = TR.MethodFilter.create(tgt.iface, lambda m, v: v.d[0], default={"r": 2}, use_condition=uc)
+        wide = cfg.get("cond") == "wide"  # a condition value wider than one bit: "non-zero return value is interpreted as true"
+        dut = TR.MethodFilter.create(tgt.iface, (lambda m, v: v.d) if wide else (lambda m, v: v.d[0]), default={"r": 2}, use_condition=uc)
         th = TH(dut, {"method": dut.method}, required={"t": tgt}, dependency_manager=dm)
         hw = ctx.use(th.hw)
         M, T = th.m["method"], th.m["t"]
-        cond = z3.Extract(0, 0, M.arg("d")) == 1
+        cond = (M.arg("d") != 0) if wide else (z3.Extract(0, 0, M.arg("d")) == 1)
         ctx.prove("target_called_iff_condition_holds", T.run == z3.And(M.run, cond), hw=hw)
         ctx.prove("result_is_target_result_or_default", z3.Implies(M.run, M.res("r") == z3.If(cond, T.res("r"), z3.BitVecVal(2, 2))), hw=hw)
         ctx.prove("argument_forwarded", z3.Implies(T.run, T.arg("d") == M.arg("d")), hw=hw)
